@@ -38,6 +38,17 @@ impl<K, V> Default for EventQueue<K, V> {
     }
 }
 
+#[cfg(feature = "verif_hooks")]
+impl<K, V> EventQueue<K, V> {
+    /// Create an empty queue whose epoch counter starts at the given value (verification only).
+    pub fn verif_with_head_epoch(head_epoch: usize) -> Self {
+        EventQueue {
+            head_epoch,
+            ..Default::default()
+        }
+    }
+}
+
 impl<K, V> EventQueue<K, V>
 where
     K: Clone + Eq + Hash,
